@@ -420,6 +420,53 @@ def split_rule(rep):
     raise AnalysisBroken("procCdataSection: neither of the modelled splitting forms found")
 
 
+WRITE_STATE_EXEMPT = {
+    "DOMLSSerializerImpl::fCurrentLine": "monotonic line counter, only compared with a snapshot taken during the same write",
+}
+MUTATORS = ("addElement", "put", "push", "removeLastElement", "removeElementAt", "setElementAt", "insertElementAt")
+
+
+def write_state_rule(rep, f):
+    rep.rule("C12.j", "a write does not depend on earlier writes: every member of DOMLSSerializerImpl that the serialisation engine "
+             "(processNode and the members it calls on the same object) assigns, increments or mutates as a container is "
+             "re-initialised by write() itself (assigned, or emptied with removeAllElements / reset) — a write aborted by a fatal "
+             "error otherwise leaves state behind (open namespace scopes) that makes the next write omit declarations it needs")
+    cls = "DOMLSSerializerImpl"
+    calls = {}
+    for x in f.kind("call"):
+        fn = x["_fn"]
+        c = x["x"]
+        if fn.get("cls") == cls and c[1].startswith(cls + "::") and (c[2] is None or c[2] == ["this"]):
+            calls.setdefault(fn["q"], set()).add(c[1])
+    seen, work = set(), [cls + "::processNode"]
+    while work:
+        q = work.pop()
+        if q in seen:
+            continue
+        seen.add(q)
+        work += list(calls.get(q, ()))
+    written = {}
+    for x in f.kind("fld"):
+        fn = x["_fn"]
+        if fn["q"] in seen and x["f"].startswith(cls + "::"):
+            how = x["how"]
+            if how in ("write", "inc") or (how.startswith("call:") and how[5:] in MUTATORS):
+                written.setdefault(x["f"], (fn["q"], x.get("l", 0)))
+    reset = set()
+    for x in f.kind("fld"):
+        if x["_fn"]["q"] == cls + "::write" and x["f"].startswith(cls + "::"):
+            how = x["how"]
+            if how == "write" or how in ("call:removeAllElements", "call:reset", "call:removeAll"):
+                reset.add(x["f"])
+    if len(written) < 4:
+        raise AnalysisBroken("C12.j: fewer than 4 members written by the serialisation engine (%s)" % sorted(written))
+    for fld, (q, l) in sorted(written.items()):
+        ok = fld in reset or fld in WRITE_STATE_EXEMPT
+        rep.ob("C12.j", fld, ok, ("re-initialised by write()" if fld in reset else "exempt: " + WRITE_STATE_EXEMPT[fld]) if ok else
+               "%s is changed while serialising (%s, line %s) but write() does not re-initialise it: what an earlier, possibly aborted, "
+               "write left there influences the next one" % (fld, q, l), "src/xercesc/dom/impl/DOMLSSerializerImpl.cpp:%s" % l)
+
+
 def run(rep):
     f = core.library_facts()
     g = core.run_xa([os.path.join(core.REPO, SER), os.path.join(core.REPO, FMT)],
@@ -432,6 +479,7 @@ def run(rep):
     nearest_rule(rep)
     charref_rule(rep, f)
     split_rule(rep)
+    write_state_rule(rep, f)
     eaten_rule(rep, f, "C12.f", lambda fn: fn.get("cls") in ("XMLFormatter", "DOMLSSerializerImpl"))
     diag.run(rep, f, "C12")
     rep.undecided += ["round-trip equality (isEqualNode) and idempotence of serialisation: value-level",
